@@ -165,7 +165,7 @@ func (nm LNumber) Format(f fmt.State, c rune) {
 		defaultFormat(nm.String(), f, c)
 	case 'c': // one byte as C printf does, not a UTF-8 encoded rune
 		defaultFormat(string([]byte{byte(int64(nm))}), f, 's')
-	case 'd', 'o', 'x', 'X':
+	case 'd', 'o', 'u', 'x', 'X':
 		formatCInteger(f, c, int64(nm))
 	case 'b', 'U':
 		defaultFormat(int64(nm), f, c)
@@ -182,7 +182,7 @@ func (nm LNumber) Format(f fmt.State, c rune) {
 	}
 }
 
-// formatCInteger renders %d %o %x %X as C printf does.  Go's fmt differs: it
+// formatCInteger renders %d %o %u %x %X as C printf does.  Go's fmt differs: it
 // honours '+' and ' ' for the unsigned conversions, prefixes a zero value
 // under '#', ignores the prefix when padding with zeros, and drops the sign
 // or the octal zero when value and precision are both 0.
@@ -195,6 +195,8 @@ func formatCInteger(f fmt.State, c rune, v int64) {
 		} else {
 			digits = strconv.FormatUint(uint64(v), 10)
 		}
+	case 'u':
+		digits = strconv.FormatUint(uint64(v), 10)
 	case 'o':
 		digits = strconv.FormatUint(uint64(v), 8)
 	case 'x':
